@@ -120,9 +120,45 @@ class Multiline:
     -------
     self
     """
+    # check all tags first, so that nothing is merged if any is inconsistent
+    for of in gfa_line.tagnames:
+      self._check_mergeable(of, gfa_line.get(of), gfa_line.get_datatype(of))
     for of in gfa_line.tagnames:
       self.add(of, gfa_line.get(of), gfa_line.get_datatype(of))
     return self
+
+  def _check_mergeable(self, tagname, value, datatype):
+    """
+    Check that a value can be added to the header using add().
+
+    Raises
+    ------
+    gfapy.InconsistencyError
+      If the tag is a single definition tag, already defined with a different
+      value, or (if the validation level is > 1) if the datatype is different
+      from that of the previous definitions of the tag.
+    """
+    prev = self.get(tagname)
+    if prev is None:
+      return
+    if isinstance(prev, gfapy.FieldArray):
+      prev_datatype = prev.datatype
+    else:
+      prev_datatype = self.get_datatype(tagname)
+      if tagname in self.SINGLE_DEFINITION_TAGS:
+        if self.field_to_s(tagname) != \
+            gfapy.Field._to_gfa_field(value, fieldname=tagname):
+          raise gfapy.InconsistencyError(
+            "Inconsistent values for header tag {} found\n".format(tagname)+
+            "Previous definition: {}\n".format(prev)+
+            "Current definition: {}".format(value))
+        return
+    if self.vlevel > 1 and datatype != prev_datatype:
+      raise gfapy.InconsistencyError(
+        "Datadatatype mismatch error for field {}:\n".format(tagname)+
+        "value: {}\n".format(value)+
+        "existing datatype: {};\n".format(prev_datatype)+
+        "new datatype: {}".format(datatype))
 
   def _tags(self):
     """
